@@ -107,7 +107,9 @@ def gen_combo(rng):
     """A well-formed query combining clauses that are rarely used together (aggregates x GROUP BY x ORDER BY on keys that
     may or may not be selected x LIMIT x every format x root options)."""
     aggs = ["count(*)", "sum(size)", "min(size)", "max(size)", "avg(size)", "stddev(size)", "var_samp(size)", "max(length(name))"]
-    plain = ["name", "size", "ext", "path", "modified", "is_dir", "mode", "upper(name)", "size + 1", "length(name)", "uid"]
+    plain = ["name", "size", "ext", "path", "modified", "is_dir", "mode", "upper(name)", "size + 1", "length(name)", "uid",
+             # values that are not numbers (0 / 0, x % 0, roots and logarithms of negative numbers), infinite, or empty
+             "size / size", "size % 0", "sqrt(0 - size)", "ln(0 - size)", "1 / (size - size)", "-1 / uid", "line_count / 0", "power(size, 1000)"]
     keys = ["ext", "dir", "is_dir", "uid", "length(name)", "mode"]
     kind = rng.choice(["grouped", "grouped", "aggregate", "plain"])
     toks = []
